@@ -201,7 +201,7 @@ def gen_c09(tier, seed):
             o["err"] = r.choice([R_PIPE, R_PIPE, R_STDOUT, R_DISCARD, R_PARENT])
             o["nb"] = r.randrange(2)
             if r.random() < 0.15:
-                o["fork"] = 1
+                o["fork"] = r.choice([1, 2])   # 2: the child side of the fork execs the helper itself
             if r.random() < 0.1:
                 o["input"] = r.choice([0, 1, 100])
                 o["in"] = R_PIPE
